@@ -1004,12 +1004,20 @@ def substitute_equivalent(modules, log):
     store = load_baseline_src()
     if store is None:
         return
+    from . import nf
     for name in sorted(modules):
         refs = store.get(name)
         if not refs:
             continue
         seen = {}
+        try:
+            pure_f, pure_m = equiv.infer_pure(modules[name].tree)
+        except Exception:
+            pure_f, pure_m = set(), {}
         for body, i, q in _defs_in(modules[name].tree.body, name, []):
+            parts = q[len(name) + 1:].split(".")
+            nf.EXTRA_PURE_FUNCS = set(pure_f)
+            nf.EXTRA_PURE_SELF_METHODS = set(pure_m.get(parts[-2], set())) if len(parts) >= 2 else set()
             k = seen.get(q, 0)
             seen[q] = k + 1
             if q not in refs or k >= len(refs[q]):
